@@ -2,5 +2,7 @@ import SupervisorModel.Basic.DriverKit
 import SupervisorModel.Model.Envelope
 import SupervisorModel.Model.Tick
 import SupervisorModel.Model.Notify
+import SupervisorModel.Model.Pool
 def main : IO Unit := Sv.driverMain [("envelope", Sv.Envelope.runCase), ("tick", Sv.Tick.runCase),
-  ("groups", Sv.Notify.runGroups), ("finish", Sv.Notify.runFinish), ("change", Sv.Notify.runChange)]
+  ("groups", Sv.Notify.runGroups), ("finish", Sv.Notify.runFinish), ("change", Sv.Notify.runChange),
+  ("pool", Sv.Pool.runCase)]
